@@ -7,11 +7,14 @@
             (operator_utility.go:577-653). Producer = the observer handed to the source
             (`ch <- notification`, after a terminal `stop()`), consumer = `for n := range ch` +
             `processNotificationWithContext` into the downstream subscriber, teardown =
-            `subscriptions.Unsubscribe(); stop()`.
+            `defer stop(); subscriptions.Unsubscribe()` — `stop()` runs after the upstream
+            unsubscription whether that returns or panics (`Cfg.upPanic`: a teardown of the source
+            panics; `subscriptionImpl.Unsubscribe` re-raises it after all finalizers have run, the
+            deferred `stop()` / `closeChan()` runs, then the panic continues to the caller).
   * `Pipe`  (`Cfg.toChan = true`): `ToChannel` (operator_sink.go:118-181). Producer = the goroutine
             that (after `time.Sleep(1ms)`) subscribes to the source and sends materialised
             notifications, then `closeChan(); destination.Complete`; the third thread first hands the
-            channel out (`destination.NextWithContext(context.TODO(), ch)`), later may unsubscribe;
+            channel out (`destination.NextWithContext(subscriberCtx, ch)`), later may unsubscribe;
             consumer = whoever received the channel and ranges over it.
   * `From`: `FromChannel` (operator_creation.go:340-364). Producer = the user of the input channel
             (sends values, then closes it or abandons it), consumer = the goroutine
@@ -53,6 +56,8 @@ structure Cfg where
   cap : Nat
   toChan : Bool := false
   hot : Bool := true
+  /-- the source's own teardown panics when it is run -/
+  upPanic : Bool := false
 deriving Repr
 
 inductive PPc (α : Type)
@@ -71,10 +76,10 @@ inductive CPc (α : Type)
 deriving Repr
 
 inductive TPc
-  | handout              -- ToChannel: `destination.NextWithContext(context.TODO(), ch)`
+  | handout              -- ToChannel: `destination.NextWithContext(subscriberCtx, ch)`
   | cas                  -- `subscriberImpl.Unsubscribe`: CAS on the downstream status
-  | td1                  -- teardown: `subscriptions.Unsubscribe()`
-  | td2                  -- teardown: `stop()` / `closeChan()`
+  | td1                  -- teardown: `subscriptions.Unsubscribe()` (may panic, see `Cfg.upPanic`)
+  | td2                  -- teardown: the deferred `stop()` / `closeChan()`
   | done
 deriving DecidableEq, Repr
 
@@ -85,6 +90,9 @@ structure St (α : Type) where
   upOpen : Bool := true
   /-- history: the teardown cut an upstream that was still open -/
   cut : Bool := false
+  /-- history: an upstream teardown panicked inside `subscriptions.Unsubscribe()`; the panic
+      continues to the caller of the teardown once the deferred `stop()` has run -/
+  raised : Bool := false
   ppc : PPc α := .idle
   q : List (Notif α) := []
   closed : Bool := false
@@ -128,9 +136,11 @@ def St.stop (s : St α) : St α :=
   else { s with once := true, closed := true, closes := s.closes + 1, stops := s.stops + 1 }
 
 /-- teardown, first action: `subscriptions.Unsubscribe()` — closes the upstream subscriber when the
-    source's subscription is already registered (hot source) -/
+    source's subscription is already registered (hot source); the source's own teardown runs (and
+    may panic) only when this call is the one that closes it. Whatever happens here, the thread
+    goes on to the deferred `stop()` (operator_utility.go:647-653, operator_sink.go:176-182). -/
 def St.unsubUp (cfg : Cfg) (s : St α) : St α :=
-  if cfg.hot then { s with upOpen := false, cut := s.cut || s.upOpen } else s
+  if cfg.hot then { s with upOpen := false, cut := s.cut || s.upOpen, raised := s.raised || (cfg.upPanic && s.upOpen) } else s
 
 def hand : PPc α → List (Notif α)
   | .send x => [x]
@@ -151,7 +161,10 @@ def stepProd (cfg : Cfg) (s : St α) : Option (St α) :=
     | x :: xs =>
       if s.upOpen then
         -- subscriber.go:176-241: a terminal flips the status before the callback runs
-        some { s with src := xs, ppc := .send x, entered := s.entered ++ [x], upOpen := !x.isTerminal }
+        -- (a registered source's own terminal also runs its own teardown once the callback has
+        -- returned; if that panics the panic goes to the emitter — recorded in `raised`)
+        some { s with src := xs, ppc := .send x, entered := s.entered ++ [x], upOpen := !x.isTerminal,
+                      raised := s.raised || (cfg.upPanic && cfg.hot && x.isTerminal) }
       else
         some { s with src := xs, dropsUp := s.dropsUp ++ [x] }
   | .send x =>
